@@ -124,6 +124,17 @@ class P(Prop):
         for i in range(n):
             c, A = self.gen_case()
             self.oracle(c, A)
+            if i % 3 == 0 and not c.blackboxes:
+                # the same Circuit object again after in-place edits (a type change, a new startpoint): the count must
+                # describe the circuit as it is now
+                gates = [g for g in c.graph.nodes if c.type(g) in gen.MULTI]
+                if gates:
+                    g = self.rng.choice(gates)
+                    c.set_type(g, self.rng.choice([t for t in gen.MULTI if t != c.type(g)]))
+                    self.oracle(c, {k: v for k, v in A.items() if k in c.graph.nodes})
+                    if len(c.startpoints()) < 5 and self.rng.random() < 0.5:
+                        c.add("zz_late", "input", fanout=[g], uid=True)
+                        self.oracle(c, {k: v for k, v in A.items() if k in c.graph.nodes})
             if self.too_many():
                 break
 
